@@ -341,17 +341,16 @@ func (m *AccessMon) Step(w *World, action string) {
 				if rsp.IsErr {
 					continue
 				}
-				if !resultHas(rsp.Result, p.RID) {
-					continue // no data for the resource itself in this response
-				}
+				// a success answer needs a valid grant even when the resource set
+				// is empty because the client already holds the resource
 				switch {
 				case a == nil:
-					w.Fail("C04", "data-without-access", "%s: %s answered with data although no access answer for it was ever delivered", c.Label, p.Method)
+					w.Fail("C04", "data-without-access", "%s: %s succeeded although no access answer for it was ever delivered", c.Label, p.Method)
 				case !a.grantG:
-					w.Fail("C04", "data-despite-denial", "%s: %s answered with data although the latest access answer is not a get grant (error %q)", c.Label, p.Method, a.code)
+					w.Fail("C04", "data-despite-denial", "%s: %s succeeded although the latest access answer is not a get grant (error %q)", c.Label, p.Method, a.code)
 				default:
 					if ok, t := m.valid(a, p.SentAt); !ok {
-						w.Fail("C04", "data-on-stale-verdict", "%s: %s answered with data on an access verdict from t=%d although a %s trigger from t=%d had settled at t=%d, before the request (t=%d)", c.Label, p.Method, a.ansTime, t.kind, t.time, t.settled, p.SentAt)
+						w.Fail("C04", "data-on-stale-verdict", "%s: %s succeeded on an access verdict from t=%d although a %s trigger from t=%d had settled at t=%d, before the request (t=%d)", c.Label, p.Method, a.ansTime, t.kind, t.time, t.settled, p.SentAt)
 					}
 				}
 			case "call", "auth", "new":
